@@ -33,17 +33,21 @@ TARGETS = {"for", "with", "except", "import", "importfrom", "walrus"}
 GROUPS = {
     # name: constants, per tier (Names, MaxScopes, MaxEv)
     "core": dict(Kinds={"function", "class"}, Ops=CORE, ScopeNames=set(),
-                 quick=({"a"}, 4, 3), quick_rename=({"a"}, 3, 4), thorough=({"a"}, 4, 5)),
+                 quick=({"a"}, 4, 3), quick_rename=({"a"}, 3, 4), thorough=({"a"}, 4, 4)),
+    # deep nesting with few events (class > def > def chains, every order of kinds); small
+    # enough to be replayed completely in the quick tier
+    "nest": dict(Kinds={"function", "class"}, Ops={"bind", "use"}, ScopeNames=set(), replay_all=True,
+                 quick=({"a"}, 4, 2), thorough=({"a"}, 4, 3)),
     "core2": dict(Kinds={"function", "class"}, Ops=CORE, ScopeNames=set(),
                   quick=({"a", "b"}, 2, 4), thorough=({"a", "b"}, 3, 4)),
     "defnames": dict(Kinds={"function", "class"}, Ops={"bind", "use", "global", "nonlocal", "param"},
-                     ScopeNames={"a"}, quick=({"a"}, 3, 3), thorough=({"a"}, 4, 3)),
+                     ScopeNames={"a"}, quick=({"a"}, 3, 3), thorough=({"a"}, 3, 4)),
     "targets": dict(Kinds={"function", "class"}, Ops={"use", "global", "nonlocal"} | TARGETS,
                     ScopeNames=set(), quick=({"a"}, 3, 3), quick_rename=({"a"}, 2, 4), thorough=({"a"}, 3, 4)),
     "comp": dict(Kinds={"function", "class", "comp"}, Ops={"bind", "use", "for", "iteruse", "global", "param"},
-                 ScopeNames=set(), quick=({"a"}, 3, 3), thorough=({"a"}, 4, 4)),
+                 ScopeNames=set(), quick=({"a"}, 3, 3), thorough=({"a"}, 4, 3)),
     "calls": dict(Kinds={"function", "class"}, Ops={"bind", "use", "param", "kwcall", "defuse"},
-                  ScopeNames={"a"}, quick=({"a", "b"}, 3, 2), thorough=({"a", "b"}, 3, 4)),
+                  ScopeNames={"a"}, quick=({"a", "b"}, 3, 2), thorough=({"a", "b"}, 3, 3)),
     "decoys": dict(Kinds={"function"}, Ops={"bind", "use", "param", "fuse", "cmtdecoy", "strdecoy"},
                    ScopeNames=set(), quick=({"a"}, 2, 4), thorough=({"a"}, 3, 4)),
     # multi-module part: a second module, the import forms, rename of its names / of the module
@@ -56,9 +60,9 @@ GROUPS = {
     "stmts": dict(Kinds={"function", "class"}, Ops={"use", "bind", "aug", "del", "matchcap", "annbind"},
                   ScopeNames=set(), quick=({"a"}, 3, 3), thorough=({"a"}, 3, 4)),
     "walrus": dict(Kinds={"function", "class", "comp"}, Ops={"use", "bind", "walrus", "for", "param"},
-                   ScopeNames=set(), quick=({"a"}, 3, 3), thorough=({"a"}, 4, 4)),
+                   ScopeNames=set(), quick=({"a"}, 3, 3), thorough=({"a"}, 3, 4)),
     "lambda": dict(Kinds={"function", "class", "lambda", "comp"}, Ops={"use", "bind", "param", "walrus", "defuse", "for"},
-                   ScopeNames=set(), quick=({"a"}, 3, 3), thorough=({"a"}, 4, 3)),
+                   ScopeNames=set(), quick=({"a"}, 3, 3), thorough=({"a"}, 3, 4)),
 }
 
 MODEL_INVARIANTS = ["TypeOK", "ResolveTotal", "ClassSkip", "LocalWins", "NonlocalBinds",
